@@ -118,9 +118,8 @@ def registry(cid, tier='thorough'):
 
     reg.add(Contract(KEY + '.has_private', params={}, raises={}, ensures={'v': 'result <==> (self._d is not None)'}, modifies=[]))
     reg.add(Contract(KEY + '.pointQ', params={}, raises={}, result=OPT,
-                     ensures={'value': 'result._point._raw_pointer.%s == old(%s)' % (gf, Q), 'cached': 'self._point is result',
-                              'same': 'old(self._point) is not None ==> result is old(self._point)'},
-                     modifies=['self._point']))
+                     ensures={'value': 'result._point._raw_pointer.%s == old(%s)' % (gf, Q), 'cached': 'self._point is result'},
+                     modifies=['self._point']))        # callers inline this three-line property (its result may be a NEW object)
     reg.add(Contract(KEY + '.d', params={}, raises={'ValueError': ('iff', 'self._d is None')}, ensures={'v': 'result is self._d'}, modifies=[],
                      result=OINT))
     reg.add(Contract(KEY + '.seed', params={}, raises={'ValueError': ('iff', 'self._d is None')}, ensures={'v': 'result is self._seed or result == self._seed'},
@@ -133,7 +132,7 @@ def registry(cid, tier='thorough'):
     reg.add(Contract(KEY + '.__eq__', params={'other': OKEY + '|int|none|bytes'}, raises={},
                      ensures={'semantic': 'result <==> (isinstance(other, EccKey) and (old(self._d) is None) == (old(other._d) is None) and old(%s) == old(%s))' % (Q, QO),
                               'bool': 'result is True or result is False'},
-                     modifies=['self._point', 'other._point']))
+                     modifies=['self._point', 'other._point'], inline=[KEY + '.pointQ']))
     return reg
 
 
